@@ -434,7 +434,21 @@ def _run_history(desc, props=("C03", "C05", "C09")):
                 tkw["transform_physical"] = lambda p_, o_: (p_.copy(), o_)
             if tkw:
                 stats["runs_with_transform_physical"] += 1
-            res, exc = S.run(out_ids, W=W, sched=sched, fresh_tick=fresh, perturb=perturb, seed=seed + si, **tkw)
+            if not tkw and "C09" in props and rng.random() < 0.12:
+                # the run done in two steps: a dry run, then the returned physical plan executed by itself for the returned output node -
+                # what comes out is held to everything a one-step run is held to (the output is what the stores' reads returned, ...)
+                resd, exc = S.run(out_ids, W=W, sched=sched, fresh_tick=fresh, dry_run=True, seed=seed + si)
+                res = None
+                if exc is None:
+                    pplan_, onode_ = resd
+                    try:
+                        # (all nodes of the returned plan are executed - a real run keeps the writes it requires whatever the output asks for)
+                        res = S.uberjob.run(pplan_, output=[onode_, list(pplan_.graph.nodes())], max_workers=W, scheduler=sched, progress=None)[0]
+                    except BaseException as e_:
+                        exc = e_
+                stats["runs_in_two_steps_dry_then_execute"] += 1
+            else:
+                res, exc = S.run(out_ids, W=W, sched=sched, fresh_tick=fresh, perturb=perturb, seed=seed + si, **tkw)
         log.append(f"{si}: run W={W} sched={sched} out={out_ids} fresh={fresh} state={state_before} -> "
                    f"{'ok' if exc is None else repr(exc)[:80]} execs={sorted(exp.execs)} writes={sorted(exp.writes)} reads={sorted(exp.reads)}")
         if exc is not None:
